@@ -92,7 +92,11 @@ func runC05History(c HistCase, ev *Evid, tail *F64, closedTail *F64) (fs []Findi
 		if int64(len(now)) != size {
 			return []Finding{h.finding("length-changed", "file length became %d after %s, it was fixed at %d", len(now), op.Kind, size)}
 		}
-		switch op.Kind {
+		kind := op.Kind
+		if kind == "create-again" && op.ID == 1 {
+			kind = "reopen" // (the in-place re-create Syncs first: the disk now holds the handle's state)
+		}
+		switch kind {
 		case "sync", "reopen":
 			if writesSinceSync > 0 {
 				syncsWithWrites++
